@@ -65,6 +65,21 @@ type c05shape struct {
 	Values []any
 	Order  [][]string // property orders to try (objects)
 	Bad    []any      // values of the wrong lexical class, serialised the same way (must be rejected with a ParseError)
+	Escape bool       // string values holding characters a URL must percent-encode (path and query cells only)
+}
+
+// pctEncode percent-encodes every byte outside the unreserved set.
+func pctEncode(s string) string {
+	var b strings.Builder
+	for i := 0; i < len(s); i++ {
+		ch := s[i]
+		if ch >= 'a' && ch <= 'z' || ch >= 'A' && ch <= 'Z' || ch >= '0' && ch <= '9' || ch == '-' || ch == '.' || ch == '_' || ch == '~' {
+			b.WriteByte(ch)
+		} else {
+			fmt.Fprintf(&b, "%%%02X", ch)
+		}
+	}
+	return b.String()
 }
 
 func bp(b bool) *bool { return &b }
@@ -128,6 +143,8 @@ func c05Shapes() []c05shape {
 		{Name: "number-multiple", Kind: "prim", Schema: gen.S{"type": "number", "multipleOf": 0.5, "exclusiveMinimum": true, "minimum": 0.0}, Values: []any{0.5, 0.0, 1.25, 2.0, -0.5}},
 		{Name: "boolean", Kind: "prim", Schema: boolS, Values: []any{true, false}, Bad: []any{"maybe", "yes!"}},
 		{Name: "string", Kind: "prim", Schema: strS, Values: []any{"abc", "a1", "Hello", "x-y_z", "123", "true", "p", "role"}},
+		{Name: "string-needing-percent-encoding", Kind: "prim", Escape: true, Schema: strS, Values: []any{"a b", "50%", "caf\u00e9", "x#y?z"}},
+		{Name: "string-enum-needing-percent-encoding", Kind: "prim", Escape: true, Schema: gen.S{"type": "string", "enum": gen.Arr("a b", "x/y")}, Values: []any{"a b", "x/y", "a%20b"}},
 		{Name: "string-constrained", Kind: "prim", Schema: gen.S{"type": "string", "minLength": 2.0, "maxLength": 4.0, "pattern": "^[a-z]+$"}, Values: []any{"a", "ab", "abcd", "abcde", "AB", "a1"}},
 		{Name: "string-enum", Kind: "prim", Schema: gen.S{"type": "string", "enum": gen.Arr("red", "green")}, Values: []any{"red", "green", "blue"}},
 		{Name: "integer-enum", Kind: "prim", Schema: gen.S{"type": "integer", "enum": gen.Arr(1.0, 2.0)}, Values: []any{1.0, 2.0, 3.0}},
@@ -177,7 +194,7 @@ type c05Witness struct {
 func init() {
 	core.Register(&core.Check{
 		ID:   "C05",
-		Rule: "cells: every (in, style, explode) with style/explode given or omitted (defaults) that Parameter.Validate accepts and for which the specification defines the serialisation of the value kind; shapes: integer/int32/number/boolean/string with and without constraints, enum, allOf/oneOf/anyOf wrappers, arrays of each primitive with size/unique constraints, flat objects (several property orders), nested objects/arrays for deepObject; values: boundary and ordinary values from alphabets that exclude the cell's delimiters (empty strings and empty arrays excluded: their serialisation is undefined); presence: present / absent x required / optional; plus wrong-lexical-class texts serialised by the same rules. Each case runs the real router, the decode hook and ValidateParameter, then ValidateRequest on an operation that inherits the same parameter from its path item while declaring a same-named parameter in another location: the two verdicts must agree. Distinct = (cell, shape, value, presence, required); non-trivial = value present (decode inverse asserted) or absent (missing/optional asserted).",
+		Rule: "cells: every (in, style, explode) with style/explode given or omitted (defaults) that Parameter.Validate accepts and for which the specification defines the serialisation of the value kind; shapes: integer/int32/number/boolean/string with and without constraints, enum, allOf/oneOf/anyOf wrappers, arrays of each primitive with size/unique constraints, flat objects (several property orders), nested objects/arrays for deepObject; values: boundary and ordinary values from alphabets that exclude the cell's delimiters (empty strings and empty arrays excluded: their serialisation is undefined); presence: present / absent x required / optional; plus wrong-lexical-class texts serialised by the same rules. Each case runs the real router, the decode hook and ValidateParameter, then ValidateRequest on an operation that inherits the same parameter from its path item while declaring a same-named parameter in another location: the two verdicts must agree. Parameters defined by content (application/json) in the four locations: integer/object/array content schemas x required x absent / present-valid / present-violating. Distinct = (cell, shape, value, presence, required); non-trivial = value present (decode inverse asserted) or absent (missing/optional asserted).",
 		Assumptions: []string{
 			"gen/style.go is a correct reading of the OAS 3.0.3 style table",
 			"lenient spellings the decoder accepts (hex/octal integers, 't'/'1' booleans) are not judged; only texts of the wrong lexical class are required to be rejected",
@@ -193,9 +210,16 @@ func runC05(c *core.Ctx) {
 	cells := c05Cells()
 	shapes := c05Shapes()
 	idx := 0
+	if c.Mine(idx) {
+		c05Content(c)
+	}
+	idx++
 	for _, cell := range cells {
 		for _, sh := range shapes {
 			if !c05Allowed(cell, sh.Kind) {
+				continue
+			}
+			if sh.Escape && cell.In != "path" && cell.In != "query" {
 				continue
 			}
 			for _, required := range []bool{true, false} {
@@ -281,7 +305,12 @@ func c05Group(c *core.Ctx, cell c05cell, sh c05shape, required bool, qname strin
 		cookies := []string{}
 		switch cell.In {
 		case "path":
-			target += "/" + gen.PathSegment(name, style, explode, v, order)
+			if sv, isStr := v.(string); isStr && sh.Escape {
+				// the segment carries the percent-encoded text; the value it encodes is v
+				target += "/" + gen.PathSegment(name, style, explode, pctEncode(sv), order)
+			} else {
+				target += "/" + gen.PathSegment(name, style, explode, v, order)
+			}
 		case "query":
 			pairs = gen.QueryPairs(name, style, explode, v, order)
 		case "header":
@@ -344,7 +373,11 @@ func c05Group(c *core.Ctx, cell c05cell, sh c05shape, required bool, qname strin
 		}
 		c.Eval()
 		feat := func(kind string) map[string]string {
-			return map[string]string{"kind": kind, "in": cell.In, "style": style, "explode": fmt.Sprint(explode), "shape": sh.Kind}
+			f := map[string]string{"kind": kind, "in": cell.In, "style": style, "explode": fmt.Sprint(explode), "shape": sh.Kind}
+			if sh.Escape {
+				f["percent_encoded"] = "true"
+			}
+			return f
 		}
 		// (1) decoding is the inverse of serialisation
 		var got any
